@@ -61,6 +61,17 @@ def _oracle(case, est=None):
             want = Xe[n - n_lift:, :case['nx']]
             if not np.array_equal(lead, want):
                 return f'episode {l}: leading lifted-state columns are not the original state'
+    # the same data handed over as a pandas DataFrame (named columns) lifts and retracts to the same numbers
+    import pandas
+    Xf = np.asarray(X, dtype=float)
+    df = pandas.DataFrame(Xf, columns=[f'c{j}' for j in range(Xf.shape[1])])
+    est2 = pipes.fit(case['spec'], df, case['nu'], case['ep'])
+    Xt2 = np.asarray(est2.transform(df), dtype=float)
+    if Xt2.shape != np.asarray(Xt).shape or not np.allclose(Xt2, np.asarray(Xt, dtype=float), rtol=1e-9, atol=1e-9):
+        return 'transform of a DataFrame differs from transform of the same data as an array'
+    Xr2 = np.asarray(est2.inverse_transform(Xt2), dtype=float)
+    if Xr2.shape != np.asarray(Xr).shape or not np.allclose(Xr2, np.asarray(Xr, dtype=float), rtol=1e-9, atol=1e-9):
+        return 'round trip of a DataFrame differs from the round trip of the same data as an array'
     return None
 
 
